@@ -11,7 +11,8 @@ the code the library generates for the battery, so a new internal name becomes a
 Correspondence: Lean `pyRepr`/`pyUnquote` vs Python `repr` / `ast.literal_eval`; `fieldVar` / `typeLocal` vs the names
 found in the captured code.
 Feature models (harness/feat15.py, `feat_case`): the same oracle on shapes outside the type grammar (user-defined scalar
-types in Unions / under Patterns, several aliases, text-keyed TypedDicts, tag keys with catch-alls, string operands).
+types in Unions / under Patterns, several aliases — also spelled like other fields of the class —, text-keyed TypedDicts, tag keys
+with catch-alls, string operands, operands that are instances of user-defined int / str subclasses).
 Identity renaming (`twin_check`, and the twin of a feature model): every model is also defined a SECOND time with the same
 spelling (the same definitions executed again: new classes, equal names) and used after the first; each copy must load into
 its own classes and dump alike, and the first must be unaffected — equal spelling does not merge two models.
@@ -300,6 +301,18 @@ def feat_names(spec, rng, fld_pool, cls_pool):
             if c not in texts:
                 break
         texts.append(c)
+    # load aliases spelled like fields of the same class: the alias of one aliased field is the python name of another aliased
+    # field (or its own) — a swap / rotation / partial overlap of keys and names.  Only names of ALIASED fields are used (their
+    # own name is not a key of the document), so the keys of the document stay distinct: the renaming is injective.
+    al = [i for i, f in enumerate(spec['fields']) if f['feat'] == 'multi_alias']
+    if al and rng.random() < 0.6:
+        keys = [k for i in al for k in spec['fields'][i]['keys']]
+        targets = [fl[i] for i in al]
+        rng.shuffle(keys)
+        rng.shuffle(targets)
+        for k, nm_ in zip(keys, targets):
+            if rng.random() < 0.85 and nm_ not in texts:
+                texts[k] = nm_
     return {'root': pn(), 'types': [pn() for _ in spec['types']], 'fields': fl[:nf], 'members': [pn() for _ in range(nm)],
             'mfields': fl[nf:nf + nm], 'mrest': fl[nf + nm:nf + 2 * nm], 'rest': fl[-1], 'tds': [pn() for _ in range(nf)], 'text': texts}
 
@@ -347,6 +360,25 @@ def feat_case(ctx, rng, i, engine, fld_pool, cls_pool):
                              f'benign spelling: {json.dumps(oa[1])[:400]}', detail=det)
                     break
             else:
+                # ---- the spelling of the operands of skip conditions: an instance of a user-defined int / str subclass written as
+                # the equal value of the builtin type (`EQ(Level.A)` / `EQ(Celsius(1))` as `EQ(1)`) is the same condition
+                if any(f['feat'] == 'skip_user' for f in spec['fields']):
+                    try:
+                        c = feat15.Side(spec, dict(base, plain_operands=True))
+                    except Exception as e:      # noqa
+                        ctx.fail('feat:build', case, f'the model builds with operands of user types but not with the equal plain values: {e!r}'[:600])
+                        return case
+                    try:
+                        for kind, d1, d2 in docs:
+                            oa, oc = feat15.observe(a, d1), feat15.observe(c, d1)
+                            ctx.count('feat_operand_spelling')
+                            if C.canon(oa) != C.canon(oc):
+                                ctx.fail('feat:operand-spelling', dict(case, doc=d1), f'[load, dump] with the operands of the skip conditions written as '
+                                         f'instances of user-defined int / str subclasses: {json.dumps(oa)[:400]}; written as the equal plain values: '
+                                         f'{json.dumps(oc)[:400]}', detail={'src': a.source[-5000:]})
+                                break
+                    finally:
+                        c.close()
                 # ---- the identity renaming: the same source executed once more (same spelling — incl. __qualname__s —, new classes);
                 # each copy loads into its own classes (Side.canon identifies classes by identity), the first one is unaffected
                 which = 'benign' if (i // 2) % 2 == 0 else 'adversarial'
@@ -701,7 +733,13 @@ def run(ctx: C.Ctx):
                 'real Unions, bare, in containers and under Pattern annotations (several types of one base and one __name__ sharing the '
                 'pattern strings), several load aliases per field (both engines), functional TypedDicts with text keys (required / '
                 'NotRequired / total=False), tagged roots and tagged Union members with text tag keys × CatchAll × unknown-key policies, '
-                'string operands of skip conditions and string defaults; rendered under benign and adversarial names (text incl. runs of '
+                'string operands of skip conditions and string defaults; skip conditions (skip_if_field / Annotated SkipIf, all six '
+                'comparison operators; Meta.skip_if / skip_defaults_if) whose operand is an instance of a user-defined int / str subclass '
+                '(IntEnum / StrEnum / IntFlag member, subclass with the base repr() or one of its own built from its __name__), also '
+                'compared with the same model written with the equal plain values (operand spelling); one to three aliased fields of '
+                'different types through json_field / Annotated json_key / Meta.json_key_to_field / Alias, whose alias text is — under '
+                'the adversarial naming, 60% — the python name of another aliased field of the class or its own (swap / rotation of '
+                'keys and names; keys of the document stay distinct); rendered under benign and adversarial names (text incl. runs of '
                 'blanks), loaded from the correspondingly keyed documents and dumped back; results compared positionally. '
                 'Every model (original or renamed, benign or adversarial, alternating) is also defined a second time with the SAME spelling '
                 '(definitions re-executed in another module) and used after the first: the copy loads into its own classes (class identity), '
